@@ -233,9 +233,12 @@ Definition merge (key : option (str * str)) (d : dir) (Q : fulldir) : dir :=
      d_alias := fill_s (d_alias d) [d_alias f; d_alias q] |}.
 
 (* ---- parsePrecedingComment ---- *)
-(* lines above [line] (1-based), nearest first *)
-Definition lines_above (src : list lkind) (line : N) : list lkind :=
-  rev (firstn (N.to_nat line - 1) src).
+(* lines above [line] (1-based), nearest first.  The code walks `for i := pos.Line - 1; i > 0; i--`
+   over `sourceLines[i-1]`: its FIRST access is index line-2, out of range (a run-time panic) iff
+   line-1 exceeds the number of lines the source was split into. *)
+Definition lines_above (src : list lkind) (line : N) : res (list lkind) :=
+  if Nat.ltb (List.length src) (N.to_nat line - 1) then Panic (b "index out of range: sourceLines")
+  else Ok (rev (firstn (N.to_nat line - 1) src)).
 
 Fixpoint scan (ls : list lkind) (D : fulldir) (has : bool) : res (fulldir * bool) :=
   match ls with
@@ -255,7 +258,7 @@ Section Preceding.
   Definition parse_preceding (n : node) (key : option (str * str)) (pos : option (nat * N))
              (Q : option fulldir) : res fulldir :=
     do (D, has) <- match pos with
-                    | Some (s, line) => scan (lines_above (nth s srcs []) line) fulldir0 false
+                    | Some (s, line) => do above <- lines_above (nth s srcs []) line; scan above fulldir0 false
                     | None => Ok (fulldir0, false)
                     end;
     do u <- (if has then validate sch frags n D else Ok tt);
